@@ -1723,7 +1723,7 @@ fn run(v: &Value) -> Result<String, String> {
             fn class(code: ErrorCode) -> Out { match code { ErrorCode::MethodNotFound => Out::NotFound, ErrorCode::InvalidBody => Out::InvalidBody, other => Out::Other(other as u32) } }
             // ---- operation alphabet ----
             #[derive(Clone, Debug)]
-            enum Op { Req(&'static str, Option<Value>), Merge(Value), MergeAt(&'static str, Value), Register(&'static str, Value) }
+            enum Op { Req(&'static str, Option<Value>), Merge(Value), MergeAt(&'static str, Value), Register(&'static str, Value), RegisterFn(&'static str), SetRoot(Value) }
             let pointers = ["", "/", "/a", "/a/b", "/a/n", "/arr/1", "/arr/7", "/arr/x", "/s/t", "/c~1d", "/t~0", "/u~01", "/f", "/a/g~1h", "/g2", "/zz/y", "/a~", "/a~2b", "a", "/a/"];
             let mut ops: Vec<Op> = Vec::new();
             for p in pointers { ops.push(Op::Req(p, None)); }
@@ -1743,6 +1743,11 @@ fn run(v: &Value) -> Result<String, String> {
             ops.push(Op::MergeAt("//x", json!({"m": 1})));
             ops.push(Op::Req("//x", None));
             ops.push(Op::Req("//x", Some(json!(5))));
+            // (re-)registering a callable lays down its object parents every time, whatever happened to the tree in between
+            // (multi-step histories: register, replace the root or the parent, register again); set_root replaces the document only
+            for p in ["/f", "/a/g~1h", "/api/run", "/s/fn", "g2"] { ops.push(Op::RegisterFn(p)); }
+            ops.push(Op::SetRoot(json!({"version": 2})));
+            ops.push(Op::SetRoot(json!(7)));
             let n = ops.len();
             let probe: Vec<&str> = pointers.iter().copied().filter(|p| tokens(p).is_ok()).collect();
             let mut idx = vec![0usize; len];
@@ -1818,6 +1823,28 @@ fn run(v: &Value) -> Result<String, String> {
                                 }
                             };
                             if got != want { return Err(format!("{}: register_value({p:?}) answered {got:?}; a JSON document answers {want:?}", ctx())); }
+                        }
+                        Op::RegisterFn(p) => {
+                            let norm = if p.is_empty() || p.starts_with('/') { p.to_string() } else { format!("/{p}") };
+                            let t = tokens(&norm).map_err(|_| "bad RegisterFn pointer in the alphabet".to_string())?;
+                            let name = canonical(&t);
+                            let c = calls.clone();
+                            let nm = name.clone();
+                            reg.register_function(p, move |b: Option<Value>| { let b = b.unwrap_or(Value::Null); c.lock().unwrap().push((nm.clone(), b.clone())); Ok(json!({"called": nm, "with": b})) })
+                                .map_err(|e| format!("{}: register_function({p:?}) failed: {e}", ctx()))?;
+                            if !model.doc.is_object() { model.doc = json!({}); }
+                            let mut cur = &mut model.doc;
+                            for k in &t[..t.len() - 1] {
+                                let m = cur.as_object_mut().unwrap();
+                                let e = m.entry(k.clone()).or_insert_with(|| json!({}));
+                                if !e.is_object() { *e = json!({}); }
+                                cur = e;
+                            }
+                            if !model.funcs.contains(&name) { model.funcs.push(name); }
+                        }
+                        Op::SetRoot(val) => {
+                            reg.set_root(val.clone());
+                            model.doc = val;
                         }
                         Op::Merge(obj) => {
                             let Value::Object(o) = obj else { unreachable!() };
